@@ -2,6 +2,7 @@ package shufflegen
 
 import (
 	"encoding/hex"
+	"errors"
 	"fmt"
 	"sort"
 
@@ -201,6 +202,31 @@ func NewBootStorer() storage.Storer {
 	}
 	return u
 }
+
+// FaultyStorer decorates a storer: Put fails whenever Fail() says so (a full disk, a closed DB);
+// everything else goes to the wrapped storer. Failed counts the refused Puts.
+type FaultyStorer struct {
+	storage.Storer
+	Fail   func() bool
+	Failed int
+	Puts   int
+}
+
+// ErrInjectedPutFault is what a refused Put returns
+var ErrInjectedPutFault = errors.New("injected fault: boot storer Put failed")
+
+// Put -
+func (f *FaultyStorer) Put(key, data []byte) error {
+	f.Puts++
+	if f.Fail != nil && f.Fail() {
+		f.Failed++
+		return ErrInjectedPutFault
+	}
+	return f.Storer.Put(key, data)
+}
+
+// IsInterfaceNil -
+func (f *FaultyStorer) IsInterfaceNil() bool { return f == nil }
 
 // BuildWith is Build with a given boot storer (a second coordinator built over the same storer can
 // LoadState what the first one saved, as a restarted node does)
